@@ -84,3 +84,23 @@ Proof.
   cbv zeta. split; [repeat constructor; discriminate|]. vm_compute. reflexivity.
 Qed.
 Print Assumptions C12_nonvacuous_records.
+
+(* ------------------------------------------------------------------ the byte-level clause *)
+From RBQL Require Import CsvSpec Newline_Proofs.
+
+(* With an encoding rbql-py reads through io.TextIOWrapper(stream, encoding=...), which decodes incrementally and, in its
+   default newline mode, translates CRLF and CR to LF (nl_norm) before the reader sees the text.  The translation is invisible:
+   the physical lines, hence the records, header, warnings, counters and error, are those of the untranslated text *)
+Theorem C12_universal_newlines_invisible : forall (split : str -> list str * bool) (c : cfg) (t : str),
+  split_lines (nl_norm t) = split_lines t /\ records_of_text split c (nl_norm t) = records_of_text split c t.
+Proof. exact (fun split c t => conj (split_lines_nl_norm t) (records_of_text_nl_norm split c t)). Qed.
+Print Assumptions C12_universal_newlines_invisible.
+
+(* so the byte-level clause holds under the runtime's contract alone - "the text layer hands over, in pieces of any sizes, the
+   decoded text of the bytes, newline-translated or not" - whatever the partition of the bytes was (the contract itself, a
+   property of CPython's io module, is observed by the correspondence run on all byte partitions of the samples) *)
+Theorem C12_records_bytes : forall (split : str -> list str * bool) (c : cfg) (cs : nat) (pieces : list str) (text : str),
+  (1 <= cs)%nat -> Forall nonempty pieces -> (concat pieces = nl_norm text \/ concat pieces = text) ->
+  run_py split c cs pieces = records_of_text split c text.
+Proof. exact py_records_translated. Qed.
+Print Assumptions C12_records_bytes.
